@@ -70,9 +70,10 @@ def ccase_term(c):
         addr = coq_hex(hexs(e.get("addr", "")))
         ce = {"resource": "(CRegisterResource %s)" % coq_hex(hexs(e.get("res", ""))),
               "lost": "(CConnLost %s)" % ("true" if e.get("by_peer") else "false"),
-              "reconnect": "(CReconnect %s)" % addr}[k]
-        evs.append("(%s, {| co_sent := %s; co_addr := %s; co_per := %d; co_all := %d |})" % (
-            ce, coq_list([req_term(s) for s in (e.get("sent") or [])]), addr, e.get("per", 0), e.get("all", 0)))
+              "reconnect": "(CReconnect %s %s)" % (addr, "false" if e.get("write_fail") else "true")}[k]
+        evs.append("(%s, {| co_sent := %s; co_addr := %s; co_per := %d; co_all := %d; co_open := %s |})" % (
+            ce, coq_list([req_term(s) for s in (e.get("sent") or [])]), addr, e.get("per", 0), e.get("all", 0),
+            "true" if e.get("open") else "false"))
     return "(CCase %s)" % coq_list(evs)
 
 
@@ -130,7 +131,8 @@ def run(chk, only=None, seed=None):
         kw["only"] = only
         kw["nc"] = 0
     data, secs = vlib.run_harness("lb", chk.tmp("lb.json"), timeout=1500, **kw)
-    hist = data.get("histories") or []
+    hist = (data.get("histories") or []) + (data.get("integrated") or [])
+    n_integrated = sum(1 for h in (data.get("integrated") or []) for e in h["events"] if e["k"] == "select")
     client = data.get("client") or []
     findings = {f["pred"]: f for f in vlib.known_findings("C19")}
 
@@ -205,7 +207,8 @@ def run(chk, only=None, seed=None):
     if ccorr and not chk.violations:
         i, codes = ccorr[0]
         at = codes[0] // 10
-        what = "the requests written" if codes[0] % 10 == 3 else "the session manager's per-address / registry counts"
+        what = {3: "the requests written", 4: "the session manager's per-address / registry counts",
+                5: "whether the session is still open"}.get(codes[0] % 10, "the observations")
         chk.violation("correspondence broke: %s at event %d of the client history differ from the model's cstep" % (what, at),
                       {"client_history": client[i]["events"][:at + 1], "correspondence": "Remoting/LbCases.v ctrack", "seed": seed}, False)
     if not proof["ok"] and not chk.violations:
@@ -245,7 +248,7 @@ def run(chk, only=None, seed=None):
                 "(register resource / connection lost / reconnect) compared with the model (%d); non-trivial = a selection over a "
                 "non-empty registry, distinct by (policy, xid, registry snapshot), plus reconnects observed (%d)" % (nsel, cev, recon),
         "traces_validated_against_impl": len(hist) - len(corr) - n_oracle + (len(client) - len(ccorr)),
-        "histories": len(hist), "selections_per_policy": per_policy, "selection_outcomes": outcomes,
+        "histories": len(hist), "selections_through_the_integrated_path": n_integrated, "selections_per_policy": per_policy, "selection_outcomes": outcomes,
         "consistent_hash_selections_after_a_ring_member_closed": stale_ring,
         "reconnects_observed": recon, "reconnects_in_clean_stream": recon_clean, "reconnects_in_finding_stream": recon - recon_clean,
         "direct_oracle_failures_selection": n_oracle, "model_mismatching_cases": len(mism),
@@ -261,7 +264,7 @@ def run(chk, only=None, seed=None):
 
 def replay(chk, path):
     r = json.load(open(path))
-    if "history_index" in r and "seed" in r:
+    if r.get("history_index", -1) >= 0 and "seed" in r:
         chk.tier = "quick" if r.get("n", 260) <= 260 else "thorough"
         return run(chk, only=r["history_index"], seed=r["seed"])
     print("replay names a client history / proof obligation: re-running the check (the client scripts are fixed per seed)")
